@@ -316,6 +316,9 @@ func (o *PipelineOracle) checkpoint(w *World, final bool) {
 				if po.HasIn[fi] {
 					for pfx, ps := range po.In[fi] {
 						for _, c := range ps {
+							if c.Hidden != 0 {
+								continue // stored but not eligible (whether the classification is right is C06's business)
+							}
 							if out, ok := RefImport(dut, pc, pfx, c); ok {
 								exp[fmt.Sprintf("%s %s", pfx, normLoc(out).Key(true))]++
 							}
